@@ -6,6 +6,9 @@ Cross-checked against the Lean spec through the driver op `display` (props/c01.p
 STYLE = {1: "bold", 2: "dark", 3: "italic", 4: "underline", 5: "blink", 7: "invert"}
 
 
+STYLE_OFF = {22: ("bold", "dark"), 23: ("italic",), 24: ("underline",), 25: ("blink",), 27: ("invert",)}
+
+
 def apply_sgr(n, g):
     g = dict(g)
     if n == 0:
@@ -24,6 +27,10 @@ def apply_sgr(n, g):
         return g
     if n == 49:
         g.pop("bg", None)
+        return g
+    if n in STYLE_OFF:     # the "off" codes (curtsies does not emit them today, but they are SGR all the same)
+        for k in STYLE_OFF[n]:
+            g.pop(k, None)
         return g
     return None
 
